@@ -329,6 +329,11 @@ def oracle(ops, impl):
                 kind, node, hi, ct, pre, calls, post = parse_I(w)
                 moved = post.xyzw != pre.xyzw
                 clean = node not in tampered and not everything_tampered
+                if mode == 0 and clean and post.cell != -1 and not inside(post.bary, twod):
+                    # located by the fall-back OUTSIDE its donor cell (weights clipped): outside the property's
+                    # premise "vertex inside the background", here and in later dumps
+                    tampered.add(node)
+                    clean = False
                 if mode == 0 and clean:
                     e = metric_error(L, post.xyz, post.m, post.lg)
                     if e:
@@ -425,11 +430,13 @@ def gen_run(rng, tier):
                 'pass ay', 'dump', 'pass m', 'dump']
         # 5. a long thin strip coarsened along its length: edges longer than the 215-step walk limit of background
         #    cells, then split again (sequential fall-back of ref_interp_locate_between)
-        n = rng.randint(230, 300)
+        #    (the wall vertices of the coarsened strip are pushed beyond its ends by the edge smoother: REF_NOT_FOUND
+        #    tries in ref_smooth_no_geom_edge_improve)
+        n = rng.randint(650, 750)
         v, t, e = strip(n, 0.01, 0.05, 0.02)
-        Lc = [-2 * math.log(rng.uniform(1.2, 2.0)), 0.0, 0.0, -2 * math.log(0.06), 0.0, 0.0,
-              rng.uniform(0.8, 1.4), 0.0, 0.0, 0.1, 0.0, 0.0, 0.0, 0.0, 0.0, 0.3, 0.0, 0.0] + [0.0] * 6
-        ops += [grid_line(0, True, v, Lc, t, e), 'pass cycyp', 'pass ayp', 'pass ay', 'dump', 'pass m', 'dump']
+        Lc = [-2 * math.log(rng.uniform(1.5, 2.5)), 0.0, 0.0, -2 * math.log(0.06), 0.0, 0.0,
+              rng.uniform(0.8, 1.2), 0.0, 0.0, 0.1, 0.0, 0.0, 0.0, 0.0, 0.0, 0.3, 0.0, 0.0] + [0.0] * 6
+        ops += [grid_line(0, True, v, Lc, t, e), 'pass cyp', 'pass ayp', 'pass ayp', 'pass ay', 'dump', 'pass m', 'dump']
         # 6. no background / background not continuously interpolated: the metric is never touched
         nx = rng.randint(4, 6)
         v, t, e = mask_tris(nx, nx, shape_keep('square', nx, nx), rng=rng, jitter=0.3)
@@ -518,13 +525,40 @@ def gen_fn(rng, tier):
         for i in rng.sample(range(1, n), 4):
             ops.append('improve edge %d' % i)
         ops.append('dump')
+        # a strip whose end is pulled out of the background after caching: with a metric much coarser than the strip
+        # the wall vertices next to the end are pushed beyond the background by the edge smoother (REF_NOT_FOUND
+        # tries in ref_smooth_no_geom_edge_improve, then shorter steps located by the fall-back with clipped weights)
+        n = rng.randint(8, 12)
+        v, t, e = strip(n, 0.06, 0.1, 0.02)
+        h = rng.uniform(1.0, 4.0)
+        Ls = [-2 * math.log(h), 0.0, 0.0, -2 * math.log(0.3), 0.0, 0.0, 0.2, 0.0, 0.0, 0.1, 0.0, 0.0,
+              0.0, 0.0, 0.0, 0.3, 0.0, 0.0] + [0.0] * 6
+        ops.append(grid_line(0, True, v, Ls, t, e))
+        stretch = rng.uniform(0.5, 1.2)
+        ops.append('move %d %s %s %s' % (n, hx(v[n][0] + stretch), hx(0.0), hx(0.0)))
+        ops.append('move %d %s %s %s' % (2 * n + 1, hx(v[2 * n + 1][0] + stretch), hx(0.1), hx(0.0)))
+        for _k in range(3):
+            ops += ['improve edge %d' % (n - 1), 'improve edge %d' % (2 * n)]
+        # ... and the same for the interior row (positions that are valid in the stretched grid but not in the background:
+        # a REF_NOT_FOUND try must be rejected whatever the quality says)
+        for eps in (0.05, 0.02):
+            v, t, e = strip(n, 0.06, 0.1, eps)
+            Ls[0] = -2 * math.log(rng.uniform(0.3, 3.0))
+            ops.append(grid_line(0, True, v, Ls, t, e))
+            stretch = rng.uniform(0.5, 1.1)
+            ops.append('move %d %s %s %s' % (n, hx(v[n][0] + stretch), hx(0.0), hx(0.0)))
+            ops.append('move %d %s %s %s' % (2 * n + 1, hx(v[2 * n + 1][0] + stretch), hx(0.1), hx(0.0)))
+            last = 2 * (n + 1) + n - 1
+            ops += ['improve tri %d' % last, 'improve tri %d' % last, 'improve tri %d' % (last - 1), 'improve tri %d' % last]
+        ops.append('dump')
         # a strip longer than the walk limit: both walks of locate_between terminate, sequential fall-back
         n = rng.randint(240, 300)
         v, t, e = strip(n, 0.01, 0.05, 0.02)
         ops.append(grid_line(0, True, v, field2d(rng, 0.05, 0.05, grad=0.3), t, e))
         for _k in range(8 if tier == 'quick' else 20):
             a, b = rng.randint(0, 5), rng.randint(n + 1, n + 6)
-            x = rng.choice([rng.uniform(0.0, 0.3), rng.uniform(2.3, 0.01 * n)])
+            # the first insertion is a far one: its vertex slot is fresh (part = REF_EMPTY), found by the fall-back
+            x = rng.uniform(2.3, 0.01 * n) if _k == 0 else rng.choice([rng.uniform(0.0, 0.3), rng.uniform(2.3, 0.01 * n)])
             ops.append('between %d %d %s %s %s %s' % (a, b, hx(0.5), hx(x), hx(rng.uniform(0.001, 0.049)), hx(0.0)))
             node = 2 * (n + 1) + rng.randint(0, 10)
             ops.append('move %d %s %s %s' % (node, hx(x), hx(rng.uniform(0.001, 0.049)), hx(0.0)))
